@@ -236,6 +236,110 @@ func (s *Sim) opRegistry(op *Op) {
 		if _, ok := ecs.ComponentInfo(s.W, idAt(len(ids))); ok && len(ids) < MaxComponentTypes() {
 			s.violate("C18", "reg.stable", "unassigned", false, "ComponentInfo reports unassigned ID %d as assigned", len(ids))
 		}
+	case "res_fill":
+		// the resource registry: sequential distinct IDs up to the documented maximum, overflow
+		// panics without consuming an ID, the highest ID is usable
+		for j := range s.resMaps {
+			s.res(j) // the typed resources of the harness take their IDs first
+		}
+		n := abs(op.N)%60 + 1
+		if op.N%3 == 0 && !s.Prof.Tiny {
+			n = max
+		}
+		for i := 0; i < n; i++ {
+			have := len(ecs.ResourceIDs(s.W))
+			if have >= max || (s.Prof.Tiny && have >= 60) {
+				break
+			}
+			k := len(s.resPads)
+			var id ecs.ResID
+			p, val := s.call(func() { id = ecs.ResourceTypeID(s.W, PadType(k)) })
+			if p {
+				s.violate("C18", "reg.capacity", "res_fill", false, "registering resource type number %d of %d panicked: %v", have+1, max, val)
+				return
+			}
+			s.resPads = append(s.resPads, id)
+			ids := ecs.ResourceIDs(s.W)
+			if len(ids) != have+1 || ids[have] != id {
+				s.violate("C18", "reg.stable", "res_sequential", false, "resource type number %d got ID %v; ResourceIDs=%d entries afterwards", have+1, id, len(ids))
+				return
+			}
+		}
+		seen := map[ecs.ResID]bool{}
+		for _, id := range ecs.ResourceIDs(s.W) {
+			if seen[id] {
+				s.violate("C18", "reg.stable", "res_distinct", false, "resource ID %v is listed twice", id)
+				return
+			}
+			seen[id] = true
+		}
+		for i, id := range s.resPads {
+			if got := ecs.ResourceTypeID(s.W, PadType(i)); got != id {
+				s.violate("C18", "reg.stable", "res_pad", false, "dynamic resource type %d had ID %v, now %v", i, id, got)
+				return
+			}
+			if tp, ok := ecs.ResourceType(s.W, id); !ok || tp != PadType(i) {
+				s.violate("C18", "reg.stable", "res_type", false, "ResourceType(%v) = (%v,%v), expected %v", id, tp, ok, PadType(i))
+				return
+			}
+		}
+		if have := len(ecs.ResourceIDs(s.W)); have == max && len(s.resPads) > 0 {
+			s.C.Faults["resource_registry_full"]++
+			k := len(s.resPads) + 2000 + abs(op.N)%5
+			p, _ := s.call(func() { ecs.ResourceTypeID(s.W, PadType(k)) })
+			if !p {
+				s.violate("C18", "reg.overflow", "res_no_panic", false, "registering resource type number %d did not panic", have+1)
+			}
+			if got := len(ecs.ResourceIDs(s.W)); got != have {
+				s.violate("C18", "reg.overflow", "res_consumed", false, "failed resource registration changed the number of IDs from %d to %d", have, got)
+				return
+			}
+		}
+		if len(s.resPads) > 0 {
+			// the highest dynamic resource ID holds exactly one resource, like a map entry
+			id := s.resPads[len(s.resPads)-1]
+			v := new(uint64)
+			*v = uint64(op.N) + 5
+			rs := s.W.Resources()
+			p, val := s.call(func() {
+				if rs.Has(id) {
+					panic("Has is true before Add")
+				}
+				rs.Add(id, v)
+				if !rs.Has(id) || rs.Get(id) != any(v) {
+					panic("Get/Has after Add")
+				}
+			})
+			if p {
+				s.violate("C18", "res.map", "highest_id", false, "resource with the highest ID %v (of %d): %v", id, len(ecs.ResourceIDs(s.W)), val)
+				return
+			}
+			if p, _ := s.call(func() { rs.Add(id, v) }); !p {
+				s.violate("C18", "res.map", "highest_id/dup_add", false, "adding the resource with ID %v twice did not panic", id)
+			}
+			p, val = s.call(func() {
+				rs.Remove(id)
+				if rs.Has(id) || rs.Get(id) != nil {
+					panic("Has/Get after Remove")
+				}
+			})
+			if p {
+				s.violate("C18", "res.map", "highest_id/remove", false, "resource with the highest ID %v: %v", id, val)
+				return
+			}
+			// the typed resources are untouched
+			for j := range s.resMaps {
+				if s.resMaps[j].add == nil {
+					continue
+				}
+				want, ok := s.M.Res[j]
+				got, gok := s.resMaps[j].get()
+				if gok != ok || (ok && got != want) {
+					s.violate("C18", "res.map", "highest_id/others", false, "resource %d changed by operations on another resource ID: (%#x,%v), expected (%#x,%v)", j, got, gok, want, ok)
+					return
+				}
+			}
+		}
 	default:
 		s.skip(op)
 		return
